@@ -76,7 +76,7 @@ func (r *flakyMX) LookupMX(ctx context.Context, name string) ([]*net.MX, error) 
 func RunQB(s *simrt.Sim, a *harness.Args, r *harness.Result) {
 	log.DefaultLogger.Out = log.NopOutput{}
 	const st = "scen"
-	w := &World{s: s, a: a, prop: a.Prop, closeDone: map[int]bool{}}
+	w := &World{s: s, a: a, prop: a.Prop, closeDone: map[int]bool{}, closeStep: map[int]int{}}
 	sc := &Scenario{Bounce: true, Partial: true}
 	w.sc = sc
 	kindN := s.T.Choose(st, 3) // 0 target.smtp, 1 target.lmtp, 2 target.remote
